@@ -52,7 +52,38 @@ def hexList : Nat → List String → Option (List Bytes)
     pure (b :: r)
   | _, _ => none
 
+def natPairs : Nat → List String → Option (List (Bytes × Nat) × List String)
+  | 0, rest => some ([], rest)
+  | k+1, d :: a :: rest => do
+    let db ← unhex d
+    let n ← a.toNat?
+    let (l, r) ← natPairs k rest
+    pure ((db, n) :: l, r)
+  | _, _ => none
+
 def withX (s : St) (f : Store → Store) : St × String := ({ s with st := { s.st with x := f s.st.x } }, "ok")
+
+def doCreate (s : St) (verb ty chain cb cv sb sv rev h : String) (extra : List String) : St × String :=
+  let bad := (s, "bad-op")
+    match unhex chain, unhex cb, unhex sb, u64? rev, u64? h with
+  | some chain, some cb, some sb, some rev, some h =>
+    let s := { s with valid := (cb, cv == "1") :: (sb, sv == "1") :: s.valid }
+    let m : Option InitMeta :=
+      match ty, extra with
+      | "tm", [now] => (u64? now).map InitMeta.tm
+      | "bsc", [sg, pd] => do let a ← unhex sg; let b ← unhex pd; pure (InitMeta.bsc a b)
+      | "eth", [hs, rt, ix] => do let a ← unhex hs; let b ← unhex rt; let c ← unhex ix; pure (InitMeta.eth a b c)
+      | "tss", _ => some InitMeta.tss
+      | _, _ => none
+    match m with
+    | some m =>
+      let o := if verb == "create" then createClientO s.st.x chain cb (cv == "1") sb (rev, h) m
+               else toggleClientO s.st.x chain cb (cv == "1") sb (rev, h) m
+      match o with
+      | .ok x => ({ s with st := { s.st with x := x } }, "ok")
+      | _ => (s, "err")
+    | none => bad
+  | _, _, _, _, _ => bad
 
 def step (s : St) (line : String) : St × String :=
   let bad := (s, "bad-op")
@@ -60,21 +91,33 @@ def step (s : St) (line : String) : St × String :=
   | ["reset"] => (fresh, "ok")
   | ["chainname", n] => match unhex n with | some n => withX s (setChainName · n) | none => bad
   | ["relayer", b] => match unhex b with | some b => withX s (registerRelayer · b) | none => bad
-  | "create" :: ty :: chain :: cb :: cv :: sb :: sv :: rev :: h :: extra =>
-    match unhex chain, unhex cb, unhex sb, u64? rev, u64? h with
-    | some chain, some cb, some sb, some rev, some h =>
-      let s := { s with valid := (cb, cv == "1") :: (sb, sv == "1") :: s.valid }
-      let m : Option InitMeta :=
-        match ty, extra with
-        | "tm", [now] => (u64? now).map InitMeta.tm
-        | "bsc", [sg, pd] => do let a ← unhex sg; let b ← unhex pd; pure (InitMeta.bsc a b)
-        | "eth", [hs, rt, ix] => do let a ← unhex hs; let b ← unhex rt; let c ← unhex ix; pure (InitMeta.eth a b c)
-        | "tss", _ => some InitMeta.tss
-        | _, _ => none
-      match m with
-      | some m => withX s (createClient · chain cb sb (rev, h) m)
+  | "rvinit" :: fv :: nb :: rest =>
+    match nb.toNat? with
+    | none => bad
+    | some nb =>
+      match natPairs nb rest with
       | none => bad
-    | _, _, _, _, _ => bad
+      | some (bals, rest2) =>
+        match rest2 with
+        | nr :: rest3 =>
+          match nr.toNat? with
+          | none => bad
+          | some nr =>
+            match natPairs nr rest3 with
+            | none => bad
+            | some (rw, _) =>
+              let sender : Bytes := [0xf7]
+              let pool : Bytes := [0x70]
+              let bal : Balances := fun a d => if a = sender then (bals.lookup d).getD 0 else 0
+              let g : RvGenesis := { params := [], sender := sender, fromValid := fv == "1", initReward := rw }
+              match initRvesting pool bal g with
+              | .ok st =>
+                (s, "ok P[" ++ joinWith "," (bals.map fun b => hex b.1 ++ "=" ++ toString (st.bal pool b.1)) ++ "] F["
+                  ++ joinWith "," (bals.map fun b => hex b.1 ++ "=" ++ toString (st.bal sender b.1)) ++ "]")
+              | _ => (s, "panic")
+        | _ => bad
+  | "create" :: ty :: chain :: cb :: cv :: sb :: sv :: rev :: h :: extra => doCreate s "create" ty chain cb cv sb sv rev h extra
+  | "toggle" :: ty :: chain :: cb :: cv :: sb :: sv :: rev :: h :: extra => doCreate s "toggle" ty chain cb cv sb sv rev h extra
   | ["client", chain, b, v] =>
     match unhex chain, unhex b with
     | some chain, some b => withX { s with valid := (b, v == "1") :: s.valid } (setClientState · chain b)
